@@ -13,11 +13,13 @@ PalRGB(i) ==              \* <<r,g,b>> of palette entry i, 16 <= i <= 255
 Sq(x) == x * x
 Dist(c, p) == 900 * Sq(c[1] - p[1]) + 3481 * Sq(c[2] - p[2]) + 121 * Sq(c[3] - p[3])
 
+Min2(a, b) == IF a < b THEN a ELSE b
 (* Distance from channel value v to the nearest cube level. *)
-ChanMin(v) == LET ds == {Sq(v - Level(k)) : k \in 0..5} IN CHOOSE d \in ds : \A e \in ds : d <= e
+ChanMin(v) == Min2(Sq(v), Min2(Sq(v - 95), Min2(Sq(v - 135), Min2(Sq(v - 175), Min2(Sq(v - 215), Sq(v - 255))))))
 CubeMin(c) == 900 * ChanMin(c[1]) + 3481 * ChanMin(c[2]) + 121 * ChanMin(c[3])
-GreyMin(c) == LET ds == {Dist(c, PalRGB(i)) : i \in 232..255} IN CHOOSE d \in ds : \A e \in ds : d <= e
-MinDist(c) == IF CubeMin(c) <= GreyMin(c) THEN CubeMin(c) ELSE GreyMin(c)
+SetMin(S) == CHOOSE d \in S : \A e \in S : d <= e
+GreyMin(c) == SetMin({Dist(c, PalRGB(i)) : i \in 232..255})
+MinDist(c) == Min2(CubeMin(c), GreyMin(c))
 
 (* i is an acceptable fallback for direct colour c = <<r,g,b>>. *)
 IsNearest(c, i) == i \in 16..255 /\ Dist(c, PalRGB(i)) = MinDist(c)
@@ -25,5 +27,5 @@ Nearest(c) == {i \in 16..255 : Dist(c, PalRGB(i)) = MinDist(c)}
 
 (* Sanity theorem checked by TLC on a sample: the separable minimum equals  *)
 (* the brute-force minimum.                                                 *)
-BruteMin(c) == LET ds == {Dist(c, PalRGB(i)) : i \in 16..255} IN CHOOSE d \in ds : \A e \in ds : d <= e
+BruteMin(c) == SetMin({Dist(c, PalRGB(i)) : i \in 16..255})
 =============================================================================
